@@ -5,10 +5,12 @@
 #include <binlog/EntryStream.hpp>
 #include <binlog/EventFilter.hpp>
 #include <binlog/EventStream.hpp>
+#include <binlog/PrettyPrinter.hpp>
 #include <binlog/detail/SegmentedMap.hpp>
 
 #include "../bin/printers.hpp"
 
+#include <algorithm>
 #include <cstdint>
 #include <cstring>
 #include <iostream>
@@ -310,6 +312,68 @@ std::string cmdPrint(bool sorted, const std::string& file)
   return "text=" + hex(out.str()) + " err=" + err;
 }
 
+bool parseClockSync(const std::string& s, binlog::ClockSync& cs)
+{
+  const std::vector<std::string> f = split(s, ',');
+  if (f.size() != 5) { return false; }
+  cs.clockValue = std::stoull(f[0]);
+  cs.clockFrequency = std::stoull(f[1]);
+  cs.nsSinceEpoch = std::stoull(f[2]);
+  cs.tzOffset = std::int32_t(std::uint32_t(std::stoull(f[3])));
+  std::string name;
+  if (! f[4].empty() && ! unhex(f[4], name)) { return false; }
+  cs.tzName = name;
+  return true;
+}
+
+std::string printWith(const std::string& fmt, const std::string& dateFmt, const binlog::ClockSync& cs, std::uint64_t clock)
+{
+  binlog::EventSource src;
+  binlog::Event ev;
+  ev.source = &src;
+  ev.clockValue = clock;
+  binlog::WriterProp wp;
+  binlog::PrettyPrinter pp(fmt, dateFmt);
+  std::ostringstream out;
+  try { pp.printEvent(out, ev, wp, cs); }
+  catch (const std::exception& ex) { return "ERR:" + errKind(ex); }
+  return hex(out.str());
+}
+
+std::string cmdTime(const std::string& dateFmt, const binlog::ClockSync& cs, std::uint64_t clock)
+{
+  return "local=" + printWith("%d", dateFmt, cs, clock) + " utc=" + printWith("%u", dateFmt, cs, clock);
+}
+
+// the loop of printEvents / printSortedEvents with per-event buffering, so that the partial text of
+// an event whose printing throws can be told apart from the complete events
+std::string cmdBread(bool sorted, const std::string& fmt, const std::string& dateFmt, const std::string& file)
+{
+  std::istringstream in(file, std::ios_base::in | std::ios_base::binary);
+  binlog::IstreamEntryStream entries(in);
+  binlog::EventStream es;
+  binlog::PrettyPrinter pp(fmt, dateFmt);
+  std::vector<std::pair<std::uint64_t, std::string>> lines;
+  std::string err = "-";
+  try
+  {
+    while (const binlog::Event* e = es.nextEvent(entries))
+    {
+      std::ostringstream one;
+      pp.printEvent(one, *e, es.writerProp(), es.clockSync());
+      lines.emplace_back(e->clockValue, one.str());
+    }
+  }
+  catch (const std::exception& ex) { err = errKind(ex); }
+  if (sorted)
+  {
+    std::stable_sort(lines.begin(), lines.end(), [](const auto& a, const auto& b) { return a.first < b.first; });
+  }
+  std::string text;
+  for (const auto& l : lines) { text += l.second; }
+  return "text=" + hex(text) + " err=" + err;
+}
+
 } // namespace
 
 int main()
@@ -326,6 +390,16 @@ int main()
       else if (w.size() == 2 && w[0] == "resume") { std::vector<std::string> bs; if (unhexList(w[1], bs)) { r = cmdResume(bs); } }
       else if (w.size() == 3 && w[0] == "filter") { std::vector<std::string> bs; if (unhexList(w[2], bs)) { r = cmdFilter(w[1], bs); } }
       else if (! w.empty() && w[0] == "segmap") { r = cmdSegMap(std::vector<std::string>(w.begin() + 1, w.end())); }
+      else if (w.size() == 4 && w[0] == "time")
+      {
+        std::string f; binlog::ClockSync cs;
+        if (unhex(w[1], f) && parseClockSync(w[2], cs)) { r = cmdTime(f, cs, std::stoull(w[3])); }
+      }
+      else if (w.size() == 5 && w[0] == "bread")
+      {
+        std::string f, d, b;
+        if (unhex(w[2], f) && unhex(w[3], d) && unhex(w[4], b)) { r = cmdBread(w[1] == "1", f, d, b); }
+      }
       else if (w.size() == 3 && w[0] == "print") { std::string b; if (unhex(w[2], b)) { r = cmdPrint(w[1] == "1", b); } }
     }
     catch (const std::exception& ex) { r = std::string("harness-exception:") + ex.what(); }
